@@ -39,7 +39,7 @@ GenFixedPolicy ==
 
 \* a change of the policy switches in the middle of the history (several copies: the simulator picks among successors)
 GenNext == (GenFixedPolicy /\ UNCHANGED pol)
-           \/ \E i, f \in BOOLEAN, w \in 1..2 : ~EnvRun /\ SetPolicy(i, f) /\ Log([a |-> "policy", icc |-> i, fd |-> f])
+           \/ \E i, f \in BOOLEAN, g \in Ages : ~EnvRun /\ SetPolicy(i, f, g) /\ Log([a |-> "policy", icc |-> i, fd |-> f, age |-> g])
 
 GenSpec == GenInit /\ [][GenNext]_<<vars, hist>>
 PrintHist == (TLCGet("level") # Depth) \/ PrintT(<<"HIST", ToJson(hist)>>)
